@@ -190,10 +190,23 @@ Fixpoint digits_fuel (fuel : nat) (v : Z) (acc : list Z) : list Z :=
   | O => acc
   | S f => if v <? 10 then (48 + v) :: acc else digits_fuel f (v / 10) ((48 + v mod 10) :: acc)
   end.
+(* exactly k decimal digits of v (zero padded), prepended to acc *)
+Fixpoint digits_pad (k : nat) (v : Z) (acc : list Z) : list Z :=
+  match k with
+  | O => acc
+  | S k' => digits_pad k' (v / 10) ((48 + v mod 10) :: acc)
+  end.
+(* 16 digits at a time, so that only one long division is done per 16 digits *)
+Fixpoint digits_big (fuel : nat) (v : Z) (acc : list Z) : list Z :=
+  match fuel with
+  | O => acc
+  | S f => if v <? 10000000000000000 then digits_fuel 17 v acc
+           else let (q, r) := Z.div_eucl v 10000000000000000 in digits_big f q (digits_pad 16 r acc)
+  end.
 (* str(v); None = ValueError (more than 4300 digits) *)
 Definition py_str_of_int (v : Z) : option (list Z) :=
   let a := Z.abs v in
-  let ds := digits_fuel (S (Z.to_nat (Z.log2 a))) a [] in
+  let ds := digits_big (S (Z.to_nat (Z.log2 a / 53))) a [] in
   if max_str_digits <? zlen ds then None
   else Some (if v <? 0 then 45 :: ds else ds).
 
